@@ -48,8 +48,10 @@ func genTD(t *rapid.T, depthLeft int, role int, laxProp bool, forceStruct bool) 
 			td.HasTag, td.Expl = true, true
 		default:
 			td.HasTag = true
-			td.Cls = rapid.SampledFrom([]string{"application", "private"}).Draw(t, "cls")
-			if td.Cls == "application" && pct(t, 30, "clsexpl") {
+			// every combination of the class options, also together with explicit: encoding/asn1's decoder ignores
+			// `private` on an explicit tag and lets `private` win over `application` on an implicit one
+			td.Cls = rapid.SampledFrom([]string{"application", "private", "application,private", "private,application"}).Draw(t, "cls")
+			if pct(t, 35, "clsexpl") {
 				td.Expl = true
 			}
 		}
@@ -247,7 +249,7 @@ func genBytes(t *rapid.T, label string) []byte {
 }
 
 const printableChars = "abcxyzABCXYZ0189 '()+,-./:=?"
-const asciiExtra = "@!#$%;<>[]_{}|~*&\"\t"
+const asciiExtra = "@!#$%;<>[]_{}|~*&\"\t\x00\x01\x1f\x7f"
 
 func genString(t *rapid.T, charset string, minLen int) string {
 	n := rapid.IntRange(minLen, 10).Draw(t, "slen")
@@ -283,7 +285,9 @@ func genString(t *rapid.T, charset string, minLen int) string {
 	return string(out)
 }
 
-const utf8Chars = "aZ0 é€ß中𝄞*&@"
+// UTF-8 alphabet: 1- to 4-octet scalars, the edges of every encoding length, C0 controls and DEL, the scalars next to the
+// surrogate gap, the replacement character U+FFFD (validly encoded EF BF BD) and the noncharacter U+FFFF.
+const utf8Chars = "aZ0 é€ß中𝄞*&@\u0000\u0001\u001f\u007f\u0080\u07ff\u0800\ud7ff\ue000\ufffd\uffff\U00010000\U0010ffff"
 const bmpChars = "aZ0 é€ß中"
 
 // genVal draws a value for td. malP is the per-leaf probability (percent) of a documented lax-only malformation.
